@@ -591,9 +591,13 @@ def oracle(case, res):
                 bad.append(("stale_scores", None, f"pair {sorted(key)} is scored match_weight={r['match_weight']} match_probability={r['match_probability']} "
                             f"but the current model scores it {mw} / {mp}"))
                 break
+    labs = label_of(case)
     for r in res["lwp"]:
         a, b = row_ids(case, r)
         key = frozenset([a, b])
+        if case["mode"] == "column" and canon_float(r["clerical_match_score"]) != independent_cms(case, r, labs):
+            bad.append(("clerical", None, f"pair {sorted(key)} with labels {labs.get(a)!r}, {labs.get(b)!r} has clerical_match_score "
+                        f"{r['clerical_match_score']!r}; the label column defines {independent_cms(case, r, labs)}"))
         f_impl = bool(r["found_by_blocking_rules"])
         f_spec = True if fo is None else key in fo
         if f_impl != f_spec:
@@ -652,6 +656,23 @@ def oracle(case, res):
     return bad
 
 
+def label_of(case):
+    return {(n, u): r["lab"] for n, u, r in all_records(case)}
+
+
+def independent_cms(case, row, labs=None):
+    """clerical score of a scored pair as the PROPERTY defines it.  Label-column mode: 1.0 iff both
+    records carry the same non-NULL label, else 0.0 (a NULL-labelled record matches nothing) - from
+    our own data, not from the implementation's column.  Labels-table mode: the supplied score (the
+    joined label rows are cross-checked against our label table by the `pairs` check)."""
+    if case["mode"] != "column":
+        return canon_float(row["clerical_match_score"])
+    labs = labs or label_of(case)
+    a, b = row_ids(case, row)
+    la, lb = labs.get(a), labs.get(b)
+    return 1.0 if (la is not None and la == lb) else 0.0
+
+
 def err_rows(case, res):
     """captured rows for the prediction-error call, canonical order"""
     rows = res["lwp_err"]
@@ -664,10 +685,15 @@ def oracle_errors(case, res):
     col = case["mode"] == "column"
     fo = res["found_oracle"]
     want = []
+    labs = label_of(case)
+    out = []
     for r in err_rows(case, res):
         a, b = row_ids(case, r)
         key = frozenset([a, b])
-        cms = canon_float(r["clerical_match_score"])
+        cms = independent_cms(case, r, labs)
+        if col and canon_float(r["clerical_match_score"]) != cms and not out:
+            out.append(("clerical", None, f"pair {sorted(key)} with labels {labs.get(a)!r}, {labs.get(b)!r} has clerical_match_score "
+                        f"{r['clerical_match_score']!r}; the label column defines {cms}"))
         mp = Fraction(r["match_probability"])
         so = res["score_oracle"]
         if key in so and abs(so[key][1] - r["match_probability"]) > 1e-9:
@@ -679,11 +705,12 @@ def oracle_errors(case, res):
             want.append((sorted(map(str, key)), cms, None if col else ("FP" if fp else "FN")))
     got = []
     for r in res["errors"]:
-        got.append((sorted(map(str, row_ids(case, r))), canon_float(r["clerical_match_score"]),
+        got.append((sorted(map(str, row_ids(case, r))), independent_cms(case, r, labs),
                     None if col else r.get("truth_status")))
     if sorted(want, key=str) != sorted(got, key=str):
-        return [("errors", None, f"prediction errors returned {sorted(got, key=str)} expected {sorted(want, key=str)}")]
-    return []
+        out.append(("errors", None, f"prediction errors (include_false_positives={er['inc_fp']}, include_false_negatives={er['inc_fn']}, "
+                    f"threshold {er['t']}) returned {sorted(got, key=str)} expected {sorted(want, key=str)}"))
+    return out
 
 
 # ---------------------------------------------------------------------------- Coq terms
@@ -759,8 +786,9 @@ def errors_term(case, res):
     rows = err_rows(case, res)
     terms = []
     fo = res["found_oracle"]
+    labs = label_of(case)
     for r in rows:
-        cms = canon_float(r["clerical_match_score"])
+        cms = independent_cms(case, r, labs)                                  # independent of the implementation
         found = True if fo is None else frozenset(row_ids(case, r)) in fo     # independent of the implementation
         terms.append(f"({coq_opt(cms, lambda x: coq_Q(Fraction(x)))}, {coq_Q(Fraction(r['match_probability']))}, "
                      f"{coq_bool(found)})")
